@@ -11,6 +11,7 @@ if [ "${TRY_VIA:-repo}" = worktree ]; then
   git -C "$CR" apply "$P" || { echo "patch does not apply"; exit 3; }
   mkdir -p "$CV"; rsync -a --exclude .git --exclude .work --exclude replays --exclude seeded /verif/ "$CV/"
   ( cd "$CV" && VERIF_DIR="$CV" VERIF_REPO="$CR" timeout ${TRY_TIMEOUT:-2400} bin/verifctl check $ID --tier $T ) > /tmp/try.$ID.out 2>&1; RC=$?
+  cp "$CV/evidence/$ID.json" /tmp/try.$ID.evidence.json 2>/dev/null
   [ $RC = 2 ] && { rm -rf /tmp/try.$ID.shardlogs; mkdir -p /tmp/try.$ID.shardlogs; cp "$CV"/.work/*/shard-*.log /tmp/try.$ID.shardlogs/ 2>/dev/null; }
 else
   git -C /repo status --short | grep -q . && { echo "/repo not clean"; exit 3; }
